@@ -12,7 +12,7 @@ def main():
         groups += [dict(pkg='compiler/internal/verifrt/fe', rel='internal/verifrt/fe', harnesses=['HarnessC19GapsT%d' % k], max_paths=100000, wall_timeout=5000) for k in range(16)]
     rc = gocheck.run('C19', 'other', groups, gocheck.GOSYM_ASSUME + [
         'ASCII text, plus comment text containing one 2-byte and / or one 3-byte UTF-8 character at fixed places (concrete bytes; symbolic bytes are ASCII); regular expressions of the lexer are matched by a backtracking matcher over regexp/syntax with Go leftmost-first semantics (gosym/interp/regex.go)',
- 'front-end harness (HarnessC19Gaps*): the program set is fixed (two small programs quick, plus a broad-syntax one thorough); the inserted trivia is one of: blank, newline, blank-newline-blanks, block comment, line comment, block comments with a 2-byte / two 3-byte characters (columns count characters, indices bytes), the symbolic comment text being ONE symbolic character (6 interesting characters quick; thorough: all printable ASCII for the two small programs, the 6 characters for the broad-syntax program); tabs are not among the inserted trivia of the gap harness (the tool's column metric counts a tab as 4 and the character after it as 0, so 'moves exactly with the text' is decided for blanks, newlines and comments; for tabs the split-invariance of Position.Advance is decided by HarnessC19Advance)',
+ 'front-end harness (HarnessC19Gaps*): the program set is fixed (two small programs quick, plus a broad-syntax one thorough); the inserted trivia is one of: blank, newline, blank-newline-blanks, block comment, line comment, block comments with a 2-byte / two 3-byte characters (columns count characters, indices bytes), the symbolic comment text being ONE symbolic character (6 interesting characters quick; thorough: all printable ASCII for the two small programs, the 6 characters for the broad-syntax program); tabs are not among the inserted trivia of the gap harness (the column metric of the tool counts a tab as 4 and the character after it as 0, so "moves exactly with the text" is decided for blanks, newlines and comments; for tabs the split-invariance of Position.Advance is decided by HarnessC19Advance)',
         'NOT decided: what an accepted reformatted program prints (needs code generation), doc-comment / @extern attachment, programs outside the fixed set, multi-character comment bodies',
     ], 'FRONT END (HarnessC19Gaps0-7): for every gap between two tokens of each program and every trivia kind, the real lexer, parser, collector, resolver and type checker run on the reformatted text inside the symbolic interpreter: acceptance is unchanged, the set of error diagnostics is unchanged, and each diagnostic\'s byte index, line and column move exactly with the inserted text (index by the bytes, column by the characters inserted). KERNELS: (a0) Position.Advance over text with multi-byte characters: Index counts bytes, Column counts characters, independent of the split; (a) Position.Advance on every ASCII string up to L=3 (4 thorough) and every split point: Index counts bytes, Line counts newlines, and the column after Advance(s1+s2) equals the column after Advance(s1);Advance(s2); (b) the real lexer (all its regular expressions, matched symbolically) on tok1 . trivia . tok2 for 6 token pairs and every whitespace trivia of length <= 2 (3 thorough): same token kinds/values as with a single space, second token starts where the trivia ends.')
     sys.exit(rc)
